@@ -109,8 +109,12 @@ impl BaseElement {
         let s_lo = s as u64;
         let z = (s_hi << 32) - s_hi;
         let (res, over) = s_lo.overflowing_add(z);
+        let res = res.wrapping_add(0u32.wrapping_sub(over as u32) as u64);
 
-        BaseElement::from_mont(res.wrapping_add(0u32.wrapping_sub(over as u32) as u64))
+        // the value computed above is in the range [0, 2^64) and thus needs to be reduced by
+        // the modulus to make sure the internal representation is canonical
+        let (reduced, under) = res.overflowing_sub(M);
+        BaseElement::from_mont(if under { res } else { reduced })
     }
 }
 
